@@ -389,7 +389,18 @@ fn c13_positions(tier: Tier) -> Vec<Pos> {
             // all roots + every 6th successor
             v.extend(roots.iter().cloned());
             v.extend(all.iter().step_by(6).cloned());
-            v.truncate(320);
+            v.truncate(310);
+            // the same guarantees at large clocks (undo information is clock dependent)
+            for (i, (h, f)) in [(127u64, 60u64), (128, 90), (130, 2000), (255, 300), (4000, 2100), (4090, 2400)].iter().enumerate() {
+                let mut q = roots[(i * 7) % roots.len()].clone();
+                q.half = *h;
+                q.full = *f;
+                v.push(q);
+                let mut q = Pos::from_fen("4k3/4r3/8/8/8/8/4B3/4K3 w - - 0 1").unwrap();
+                q.half = *h;
+                q.full = *f;
+                v.push(q);
+            }
         }
         Tier::Thorough => {
             v.extend(all.iter().cloned());
